@@ -713,6 +713,19 @@ func (w *World) Close() {
 	for _, p := range w.peers {
 		_ = p.Close()
 	}
+	// relay sockets the server leaked (a finding by then) must not keep their readers alive beyond the bubble
+	w.gen.mu.Lock()
+	for _, c := range w.gen.Conns {
+		if c.ErrGate != nil {
+			select {
+			case <-c.ErrGate:
+			default:
+				close(c.ErrGate)
+			}
+		}
+		_ = c.Close()
+	}
+	w.gen.mu.Unlock()
 }
 
 func (w *World) clientName(a net.Addr) string {
@@ -1598,6 +1611,7 @@ func (w *World) badCred(c, m, k string) ([]byte, error) {
 	useUser, useRealm, useNonce, useMI := true, true, true, true
 	miUser := user
 	presentedRealm := realm
+	miRealm := realm
 	switch k {
 	case "noMI":
 		useUser, useRealm, useNonce, useMI = false, false, false, false
@@ -1607,6 +1621,11 @@ func (w *World) badCred(c, m, k string) ([]byte, error) {
 		useUser = false
 	case "noRealm":
 		useRealm = false
+	case "noRealmKeyed":
+		// REALM absent, and MESSAGE-INTEGRITY keyed for the empty realm (what a handler that is asked about
+		// realm "" would hand back): REALM is mandatory whatever the key
+		useRealm = false
+		miRealm = ""
 	case "otherRealm":
 		// REALM names another realm while MESSAGE-INTEGRITY is keyed for the server's realm: the operator's handler
 		// is asked for the key of (username, PRESENTED realm), which is not the key this request was signed with
@@ -1655,7 +1674,7 @@ func (w *World) badCred(c, m, k string) ([]byte, error) {
 		s = append(s, stun.NewNonce(nonce))
 	}
 	if useMI {
-		s = append(s, stun.NewLongTermIntegrity(miUser, realm, pw))
+		s = append(s, stun.NewLongTermIntegrity(miUser, miRealm, pw))
 	}
 	msg, err := stun.Build(s...)
 	if err != nil {
